@@ -152,6 +152,18 @@ impl Op {
             }
             next_param.definition = macro_definition;
             let mut op = Op::op(next_param, ctx)?.handle_inversion(inverted)?;
+            // Directional modifiers carried by a single-step body refer to the
+            // directions of the body, so an inverted invocation exchanges them
+            if inverted {
+                let body_fwd = op.params.boolean.remove("omit_fwd");
+                let body_inv = op.params.boolean.remove("omit_inv");
+                if body_fwd {
+                    op.params.boolean.insert("omit_inv");
+                }
+                if body_inv {
+                    op.params.boolean.insert("omit_fwd");
+                }
+            }
             if omitted("omit_fwd") {
                 op.params.boolean.insert("omit_fwd");
             }
